@@ -339,7 +339,7 @@ type TeletextOptions struct {
 func ReadFromTeletext(r io.Reader, o TeletextOptions) (s *Subtitles, err error) {
 	// Init
 	s = &Subtitles{}
-	var dmx = astits.NewDemuxer(context.Background(), r)
+	var dmx = astits.NewDemuxer(context.Background(), newTeletextFullReader(r))
 
 	// Get the teletext PID
 	var pid uint16
@@ -408,6 +408,35 @@ func ReadFromTeletext(r io.Reader, o TeletextOptions) (s *Subtitles, err error) 
 		p.parse(s, cd, firstTime)
 	}
 	return
+}
+
+// teletextFullReader makes every Read fill the buffer unless the end of the stream is reached: the demuxer detects
+// the packet size with a single Read and expects it to return all the bytes it asked for, which a reader is
+// allowed not to do (network streams, pipes, ...)
+type teletextFullReader struct{ r io.Reader }
+
+func (f teletextFullReader) Read(p []byte) (n int, err error) {
+	if n, err = io.ReadFull(f.r, p); err == io.ErrUnexpectedEOF {
+		err = nil
+	}
+	return
+}
+
+// teletextFullReadSeeker is a teletextFullReader that can be rewound, like the reader it wraps
+type teletextFullReadSeeker struct {
+	teletextFullReader
+	s io.Seeker
+}
+
+func (f teletextFullReadSeeker) Seek(offset int64, whence int) (int64, error) {
+	return f.s.Seek(offset, whence)
+}
+
+func newTeletextFullReader(r io.Reader) io.Reader {
+	if s, ok := r.(io.Seeker); ok {
+		return teletextFullReadSeeker{teletextFullReader: teletextFullReader{r: r}, s: s}
+	}
+	return teletextFullReader{r: r}
 }
 
 // TODO Add tests
